@@ -529,3 +529,219 @@ Proof.
     destruct (lib_alloc2_obj cf s s _ _ lp s2 lw s3 DOther m k W (lib_refl cf s W) A1 A2) as (X & Y & Z).
     split; auto.
 Qed.
+
+(* ================================================================ histories *)
+Lemma run_snoc cf h o : run cf (h ++ [o]) = step cf (run cf h) o.
+Proof. unfold run. now rewrite fold_left_app. Qed.
+
+Lemma wf_init : wf init.
+Proof. repeat split; constructor. Qed.
+
+Lemma clean_init cf m k : clean cf init m k.
+Proof. intros e []. Qed.
+
+Lemma sep_init m k : separated init m k.
+Proof. intros e []. Qed.
+
+Lemma observe_spec cf s m d k :
+  wf s -> clean cf s m k -> values_ok cf m k = true -> observe cf s m d k = shipped m d k.
+Proof.
+  intros W C V. unfold observe. destruct (construct_ang cf m d true s) as [[ip iw] s1] eqn:E.
+  apply construct_ang_spec in E; auto. destruct E as (_ & _ & _ & _ & _ & Vals). now apply Vals.
+Qed.
+
+Lemma sep_gives_clean cf m k :
+  (forall h, separated (run cf h) m k) -> forall h, wf (run cf h) /\ clean cf (run cf h) m k.
+Proof.
+  intros S h. induction h as [|o h IH] using rev_ind.
+  - split; [apply wf_init | apply clean_init].
+  - rewrite run_snoc. destruct IH as (W & C).
+    destruct (step_inv cf (run cf h) o m k W) as (A & B & _). split; auto.
+Qed.
+
+Lemma separation_implies_refinement_lemma cf m k :
+  values_ok cf m k = true -> (forall h, separated (run cf h) m k) ->
+  forall h d, observe cf (run cf h) m d k = shipped m d k.
+Proof.
+  intros V S h d. destruct (sep_gives_clean cf m k S h) as (W & C). now apply observe_spec.
+Qed.
+
+Lemma iso_inv cf m k : iso cf m k = true -> forall h, wf (run cf h) /\ separated (run cf h) m k.
+Proof.
+  intros I h. induction h as [|o h IH] using rev_ind.
+  - split; [apply wf_init | apply sep_init].
+  - rewrite run_snoc. destruct IH as (W & S).
+    destruct (step_inv cf (run cf h) o m k W) as (A & _ & B). split; auto.
+Qed.
+
+Lemma isolating_keeps_separation_lemma cf m k : iso cf m k = true -> forall h, separated (run cf h) m k.
+Proof. intros I h. apply (iso_inv cf m k I h). Qed.
+
+Lemma observation_refines_spec_lemma cf m k :
+  values_ok cf m k = true -> iso cf m k = true ->
+  forall h d, observe cf (run cf h) m d k = shipped m d k.
+Proof.
+  intros V I. apply separation_implies_refinement_lemma; auto. now apply isolating_keeps_separation_lemma.
+Qed.
+
+(* whatever the aliasing, at least two calls are needed to break the property *)
+Lemma no_shorter_counterexample_lemma cf m k : values_ok cf m k = true ->
+  forall h, length h <= 1 -> forall d, observe cf (run cf h) m d k = shipped m d k.
+Proof.
+  intros V h L d. destruct h as [|o [|o' r]]; simpl in L; try lia.
+  - apply observe_spec; auto using wf_init, clean_init.
+  - change (run cf [o]) with (step cf init o).
+    destruct (step_inv cf init o m k wf_init) as (A & B & _).
+    apply observe_spec; auto. apply B; auto using sep_init, clean_init.
+Qed.
+
+(* ---------------------------------------------------------------- atomic grids *)
+Lemma atom_shells_spec cf m k ds : values_ok cf m k = true ->
+  forall s ps ws s', wf s -> clean cf s m k -> atom_shells cf m ds s = ((ps, ws), s') ->
+  sel k ps ws = atom_shipped m ds k.
+Proof.
+  intros V. induction ds as [|d r IH]; simpl; intros s ps ws s' W C H.
+  - inversion H; subst. now destruct k.
+  - destruct (construct_ang cf m d (c_libcache cf) s) as [[ip iw] s1] eqn:E.
+    destruct (atom_shells cf m r s1) as [[ps' ws'] s2] eqn:A. inversion H; subst; clear H.
+    apply construct_ang_spec in E; auto. destruct E as (L & _ & _ & _ & _ & Vals).
+    pose proof (Vals k V C) as Hv.
+    pose proof (IH s1 ps' ws' _ (lib_wf _ _ _ L) (lib_clean _ _ _ _ _ L C) A) as Hr.
+    unfold atom_shipped in *. simpl. destruct k; simpl in *; rewrite Hv, Hr; reflexivity.
+Qed.
+
+Lemma atom_refines_spec_lemma cf m k : values_ok cf m k = true -> (forall h, separated (run cf h) m k) ->
+  forall h ds, observe_atom cf (run cf h) m ds k = atom_shipped m ds k.
+Proof.
+  intros V S h ds. destruct (sep_gives_clean cf m k S h) as (W & C). unfold observe_atom.
+  destruct (atom_shells cf m ds (run cf h)) as [[ps ws] s'] eqn:A.
+  eapply atom_shells_spec; eauto.
+Qed.
+
+(* ---------------------------------------------------------------- the pinned and the repaired configuration *)
+Lemma pinned_values_ok : forall m k, values_ok cfg_pinned m k = true.
+Proof. intros [] []; reflexivity. Qed.
+
+Lemma fixed_values_ok : forall m k, values_ok cfg_fixed m k = true.
+Proof. intros [] []; reflexivity. Qed.
+
+Lemma fixed_iso : forall m k, iso cfg_fixed m k = true.
+Proof. intros [] []; reflexivity. Qed.
+
+Lemma fixed_refines_spec_lemma : forall h m d k, observe cfg_fixed (run cfg_fixed h) m d k = shipped m d k.
+Proof. intros. apply observation_refines_spec_lemma; auto using fixed_values_ok, fixed_iso. Qed.
+
+Lemma fixed_atom_refines_spec_lemma :
+  forall h m ds k, observe_atom cfg_fixed (run cfg_fixed h) m ds k = atom_shipped m ds k.
+Proof.
+  intros. apply atom_refines_spec_lemma; auto using fixed_values_ok.
+  apply isolating_keeps_separation_lemma. apply fixed_iso.
+Qed.
+
+Lemma pinned_safe_arrays_lemma : forall m k, iso cfg_pinned m k = true ->
+  forall h d, observe cfg_pinned (run cfg_pinned h) m d k = shipped m d k.
+Proof. intros m k I. apply observation_refines_spec_lemma; auto using pinned_values_ok. Qed.
+
+Definition mutk (k : kind) : nat -> nat -> op := match k with KP => MutP | KW => MutW end.
+
+Lemma cache_alias_refuted_lemma :
+  exists h m d k, length h = 2 /\ observe cfg_pinned (run cfg_pinned h) m d k <> shipped m d k.
+Proof.
+  exists [Construct Maxdet 5 true; MutW 0 0], Maxdet, 5, KW. split; [reflexivity|]. vm_compute. discriminate.
+Qed.
+
+(* every array that the pinned code hands out by reference: construct, overwrite in place, construct again *)
+Lemma pinned_alias_refuted_lemma : forall m k, iso cfg_pinned m k = false ->
+  forall d tag, observe cfg_pinned (run cfg_pinned [Construct m d true; mutk k 0 tag]) m d k = [Filled tag]
+                /\ [Filled tag] <> shipped m d k.
+Proof.
+  intros m k I d tag. split; [|destruct m, k; discriminate].
+  destruct m, k; try discriminate I; unfold observe, run; cbn; unfold construct_ang; cbn;
+    rewrite !Nat.eqb_refl; cbn; reflexivity.
+Qed.
+
+Lemma atom_alias_refuted_lemma :
+  exists h m ds k, length h = 2 /\ observe_atom cfg_pinned (run cfg_pinned h) m ds k <> atom_shipped m ds k.
+Proof.
+  exists [Construct Lebedev 5 true; MutP 0 0], Lebedev, [3; 5], KP. split; [reflexivity|]. vm_compute. discriminate.
+Qed.
+
+(* ================================================================ Part B *)
+Section BProofs.
+  Variable Res : Type.
+  Variable F : tkind -> tcall -> option Z -> list Z -> Res.
+  Notation tstep := (tstep Res F).
+  Notation tfinal := (tfinal Res F).
+  Notation tresults := (tresults Res F).
+  Notation tpure := (tpure Res F).
+
+  Lemma tstep_fixed tc t b c : t_guard tc t = true -> tstep tc t (Some b) c = (Some b, tpure t b c).
+  Proof.
+    intros G. destruct c as [cl x]. unfold C19_model.tstep, C19_model.tpure. simpl.
+    destruct (t_sets tc t cl); rewrite ?G; reflexivity.
+  Qed.
+
+  Lemma tfinal_fixed tc t b cs : t_guard tc t = true -> tfinal tc t (Some b) cs = Some b.
+  Proof. intros G. induction cs as [|c r IH]; simpl; auto. now rewrite tstep_fixed. Qed.
+
+  Lemma tresults_fixed tc t b cs : t_guard tc t = true -> tresults tc t (Some b) cs = map (tpure t b) cs.
+  Proof. intros G. induction cs as [|c r IH]; simpl; auto. rewrite tstep_fixed; auto. simpl. now rewrite IH. Qed.
+
+  Lemma b_fixed_is_order_independent_lemma tc t : t_guard tc t = true ->
+    forall b cs1 cs2 c,
+      snd (tstep tc t (tfinal tc t (Some b) cs1) c) = tpure t b c /\
+      snd (tstep tc t (tfinal tc t (Some b) cs2) c) = tpure t b c /\
+      tresults tc t (Some b) cs1 = map (tpure t b) cs1 /\
+      (Permutation cs1 cs2 -> Permutation (tresults tc t (Some b) cs1) (tresults tc t (Some b) cs2)).
+  Proof.
+    intros G b cs1 cs2 c. rewrite !tfinal_fixed, !tstep_fixed, !tresults_fixed; auto.
+    repeat split; auto. apply Permutation_map.
+  Qed.
+
+  Lemma first_call_fixes_b_lemma tc t : t_guard tc t = true ->
+    forall c0 cs, t_sets tc t (fst c0) = true -> amax (snd c0) <> 0%Z ->
+      tfinal tc t None (c0 :: cs) = Some (amax (snd c0)) /\
+      tresults tc t None (c0 :: cs) = map (tpure t (amax (snd c0))) (c0 :: cs).
+  Proof.
+    intros G [cl x] cs S NZ. simpl in S, NZ.
+    assert (E : tstep tc t None (cl, x) = (Some (amax x), tpure t (amax x) (cl, x))).
+    { unfold C19_model.tstep, C19_model.tpure. simpl. rewrite S.
+      destruct (Z.eqb (amax x) 0) eqn:Z0; [apply Z.eqb_eq in Z0; contradiction | reflexivity]. }
+    change (tfinal tc t None ((cl, x) :: cs)) with (tfinal tc t (fst (tstep tc t None (cl, x))) cs).
+    change (tresults tc t None ((cl, x) :: cs))
+      with (snd (tstep tc t None (cl, x)) :: tresults tc t (fst (tstep tc t None (cl, x))) cs).
+    rewrite E. cbn [fst snd]. rewrite tfinal_fixed, tresults_fixed; auto.
+  Qed.
+End BProofs.
+
+Lemma b_unfixed_is_order_dependent_lemma :
+  exists c1 c2, tfinal unit (fun _ _ _ _ => tt) tcfg_pinned TLinearInf None [c1; c2]
+             <> tfinal unit (fun _ _ _ _ => tt) tcfg_pinned TLinearInf None [c2; c1].
+Proof. exists (CTransform, [1; 3]%Z), (CTransform, [2; 5]%Z). vm_compute. discriminate. Qed.
+
+(* without the "only when b is None" guard the property fails (why the extractor insists on the guard) *)
+Lemma b_unguarded_refuted_lemma tc t : t_guard tc t = false -> t_sets tc t CTransform = true ->
+  exists b c1 c2, tfinal unit (fun _ _ _ _ => tt) tc t (Some b) [c1] <> tfinal unit (fun _ _ _ _ => tt) tc t (Some b) [c2].
+Proof.
+  intros G S. exists 7%Z, (CTransform, [1; 3]%Z), (CTransform, [2; 5]%Z).
+  simpl. unfold tstep. rewrite S, G. simpl. discriminate.
+Qed.
+
+(* ================================================================ the hypotheses are satisfiable / the statements are not vacuous *)
+Example ex_iso_satisfiable : values_ok cfg_fixed Maxdet KW = true /\ iso cfg_fixed Maxdet KW = true
+  /\ values_ok cfg_pinned Lebedev KW = true /\ iso cfg_pinned Lebedev KW = true /\ iso cfg_pinned Maxdet KW = false.
+Proof. repeat split. Qed.
+
+Example ex_separated_nontrivial :
+  let s := run cfg_fixed [Construct Maxdet 5 true; MutW 0 0; Construct Maxdet 5 false; MkAtom Maxdet [3; 5]; Shell 2 1] in
+  separated_b s Maxdet KW = true /\ length (cache s) = 2 /\ length (objs s) = 4
+  /\ observe cfg_fixed s Maxdet 5 KW = shipped Maxdet 5 KW
+  /\ separated_b (run cfg_pinned [Construct Maxdet 5 true]) Maxdet KW = false.
+Proof. vm_compute. repeat split. Qed.
+
+Example ex_b_machine :
+  t_guard tcfg_pinned TExp = true /\
+  tstates unit (fun _ _ _ _ => tt) tcfg_pinned TLinearInf None
+     [(CDeriv2, [9]%Z); (CInverse, [2; 4]%Z); (CTransform, [1; 8]%Z)] = [None; Some 4%Z; Some 4%Z] /\
+  map is_err (tresults unit (fun _ _ _ _ => tt) tcfg_pinned TExp None [(CTransform, [0; 0]%Z); (CDeriv, [3]%Z)]) = [true; false].
+Proof. vm_compute. repeat split. Qed.
